@@ -212,10 +212,21 @@ class Interp:
         for m in mods:
             m = m.strip()
             guard = None
-            if " if " in m:
-                m, g = m.split(" if ", 1)
+            if " when " in m:
+                m, g = m.split(" when ", 1)
                 guard = self.spec(g, st, frame, binds=binds)
                 m = m.strip()
+            if m.startswith("ghost "):
+                nm, arg = m[6:].strip().split("(", 1)
+                arg = arg.rsplit(")", 1)[0]
+                v = self.spec_val(arg, st, frame, binds=binds)
+                key = "g:" + nm.strip()
+                gty = self.u.T(self.reg.ghost_fields[nm.strip()])
+                self.u._key_ty.setdefault(key, gty)
+                self.u.get_arr(st, key, gty)
+                if out.get(key) != "*":
+                    out.setdefault(key, []).append((guard, v.t))
+                continue
             if " where " in m:
                 head, cond = m.split(" where ", 1)
                 kind, var = head.rsplit(None, 1)
@@ -620,7 +631,14 @@ class Interp:
                 k = ev.ev(tgt.slice)
                 ev.dict_set(L, k, v, node)
                 return
-            i = ev.ev(tgt.slice)
+            sl = tgt.slice
+            if isinstance(sl, ast.UnaryOp) and isinstance(sl.op, ast.USub):
+                kk = self.coerce(ev.ev(sl.operand), INT, ev.st, node, ev.frame)
+                n = ev.llen(L)
+                ev.need(z3.And(kk.t >= 1, kk.t <= n), "index-store", node)
+                i = Val(n - kk.t, INT)
+            else:
+                i = self.coerce(ev.ev(sl), INT, ev.st, node, ev.frame)
             ev.lset(L, i, v, node)
             return
         if isinstance(tgt, (ast.Tuple, ast.List)):
@@ -1027,8 +1045,10 @@ class Interp:
             tv = self.spec_val(arg, st, frame, old=self.u.entry)
             vv = self.spec_val(rhs.strip(), st, frame, old=self.u.entry)
             key = "g:" + name.strip()
-            self.u._key_ty.setdefault(key, INT)
-            A = self.u.get_arr(st, key, INT)
+            gty = self.u.T(self.reg.ghost_fields.get(name.strip(), "int"))
+            self.u._key_ty.setdefault(key, gty)
+            A = self.u.get_arr(st, key, gty)
+            vv = self.coerce(vv, gty, st, None, frame, spec=True)
             self.u.put_arr(st, key, z3.Store(A, tv.t, vv.t))
 
     def merge(self, n0, outs):
